@@ -227,32 +227,31 @@ class Problem:
         H = self.rows.eval(self.z0 + self.Jw @ x, hess=True)[2]
         return np.eye(self.nv) + self.Jw.T @ H @ self.Jw
 
-    def polish(self, x, iters=30):
-        """damped Newton with backtracking on the whitened objective until the gradient stops shrinking"""
+    def polish(self, x, iters=120):
+        """damped Newton (exact generalised Hessian, Armijo backtracking) on the whitened objective; globally convergent for
+        this strongly convex C1 piecewise-smooth function; stops at the roundoff floor of the gradient"""
         f, g = self.fx(x)
         for _ in range(iters):
             gn = float(np.linalg.norm(g))
-            if gn == 0:
+            if gn <= 1e-15 * (1.0 + np.sqrt(2 * abs(f))):
                 break
             try:
                 p = -np.linalg.solve(self.hx(x), g)
             except np.linalg.LinAlgError:
                 break
+            slope = float(g @ p)
             t = 1.0
             ok = False
-            for _ in range(40):
+            for _ in range(50):
                 xn = x + t * p
                 fn, gnew = self.fx(xn)
-                if fn <= f + 1e-4 * t * float(g @ p) or float(np.linalg.norm(gnew)) < gn:
+                if fn <= f + 1e-4 * t * slope or (t == 1.0 and float(np.linalg.norm(gnew)) < 0.5 * gn):
                     ok = True
                     break
                 t *= 0.5
             if not ok:
                 break
-            shrink = float(np.linalg.norm(gnew)) < 0.999 * gn
             x, f, g = xn, fn, gnew
-            if not shrink:
-                break
         return x, f, g
 
     def solve(self, rng=None, second_start_scale=1.0):
@@ -270,7 +269,7 @@ class Problem:
         x1, f1, g1 = self.polish(r1.x)
         xs = rng.normal(size=nv) * second_start_scale * (1 + np.sqrt(2 * abs(f0)))
         r2 = optimize.minimize(lambda x: self.fx(x), xs, jac=True, method="L-BFGS-B",
-                               options={"maxiter": 500, "maxcor": 30, "ftol": 1e-15, "gtol": 1e-12})
+                               options={"maxiter": 120, "maxcor": 20, "ftol": 1e-15, "gtol": 1e-12})
         x2, f2, g2 = self.polish(r2.x)
         dist = float(np.linalg.norm(x1 - x2))
         out = dict(x=x1, a=self.to_a(x1), cost=f1, gap=0.5 * float(g1 @ g1), x2=x2, a2=self.to_a(x2), cost2=f2,
